@@ -131,6 +131,31 @@ def run_cmd(cmd, cwd=None, timeout=3600, env=None, input_text=None):
     return p.returncode, p.stdout, p.stderr
 
 
+def lean_error_sites(text, limit=4):
+    """' [File.lean: theorem name, ...]' for the first errors of a failed `lake build` (the declaration enclosing
+    each reported error position), so that a stage failure names what no longer proves."""
+    sites = []
+    for m in re.finditer(r"error: (?:\./)?(\S+?\.lean):(\d+):\d+", text):
+        rel, ln = m.group(1), int(m.group(2))
+        p = rel if os.path.isabs(rel) else os.path.join(LEAN_DIR, rel)
+        decl = None
+        try:
+            lines = open(p).read().split("\n")
+            for i in range(min(ln, len(lines)) - 1, -1, -1):
+                mm = re.match(r"^(?:@\[[^\]]*\]\s*)?(?:private\s+|protected\s+)?(theorem|def|example|instance|abbrev)\s*([^\s:({\[]*)", lines[i])
+                if mm:
+                    decl = (mm.group(1) + " " + mm.group(2)).strip()
+                    break
+        except OSError:
+            pass
+        site = f"{os.path.basename(rel)}: {decl or 'line ' + str(ln)}"
+        if site not in sites:
+            sites.append(site)
+        if len(sites) >= limit:
+            break
+    return (" [" + ", ".join(sites) + "]") if sites else ""
+
+
 class Check:
     def __init__(self, pid: str, tier: str, seed: int):
         self.pid = pid
@@ -173,27 +198,47 @@ class Check:
             self.known_hits.append((fid, what))
 
     # ------------------------------------------------------------------ Lean stage
-    def lean_stage(self, modules=None, leanchecker=None):
+    def lean_stage(self, modules=None, leanchecker=None, extra_props=()):
         """Build the property module + driver, audit axioms of every theorem in Props/<pid>.lean,
-        grep forbidden tokens. Records obligations/discharged."""
-        modules = modules or [f"PrecondVerif.Props.{self.pid}"]
+        grep forbidden tokens. Records obligations/discharged.
+
+        extra_props: names of further Props files (e.g. ("Gen",) -> Props/Gen.lean, the bridge theorems about the
+        definitions regenerated from the source by `gen_stage`).  Their theorems that belong to this property (a
+        namespace component equal to the property id, e.g. `PrecondVerif.GenProps.C06.*`; all of them if the file has
+        no such namespace) are built, axiom-audited and counted like the property's own, and the file's imports join
+        the forbidden-token closure."""
+        own = modules or [f"PrecondVerif.Props.{self.pid}"]
+        extra_mods = [f"PrecondVerif.Props.{x}" for x in extra_props]
+        modules = list(own) + [m for m in extra_mods if m not in own]
         props_file = os.path.join(LEAN_DIR, "PrecondVerif", "Props", f"{self.pid}.lean")
+
+        def extra_names():
+            res = []
+            for x in extra_props:
+                pf = os.path.join(LEAN_DIR, "PrecondVerif", "Props", f"{x}.lean")
+                if os.path.exists(pf):
+                    allx = theorem_names(pf)
+                    mine = [n for n in allx if self.pid in n.split(".")]
+                    res += mine or allx
+            return res
         cmd = ["lake", "build"] + modules + [self.exe_name()]
         self.cov["checker_cmd"] = "cd lean && " + " ".join(cmd) + " && lake env lean .work/audit_%s.lean (#print axioms) [+ leanchecker in thorough tier]" % self.pid
         rc, out, err = run_cmd(cmd, cwd=LEAN_DIR, timeout=3000)
         if rc != 0:
-            self.stage_failures.append({"stage": "lean", "name": "lake build " + " ".join(modules),
+            self.stage_failures.append({"stage": "lean", "name": "lake build " + " ".join(modules) + lean_error_sites(out + err),
                                         "detail": (out + err)[-3000:]})
-            names = theorem_names(props_file) if os.path.exists(props_file) else []
+            names = (theorem_names(props_file) if os.path.exists(props_file) else []) + extra_names()
             self.cov["obligations"] = max(len(names), 1)
             self.cov["discharged"] = 0
             return False
         names = theorem_names(props_file)
         if not names:
             raise InfraError(f"no theorems found in {props_file}")
+        names = names + extra_names()
         audit = os.path.join(WORK, f"audit_{self.pid}.lean")
         with open(audit, "w") as f:
-            f.write(f"import PrecondVerif.Props.{self.pid}\n")
+            for m in modules:
+                f.write(f"import {m}\n")
             for n in names:
                 f.write(f"#print axioms {n}\n")
         rc, out, err = run_cmd(["lake", "env", "lean", audit], cwd=LEAN_DIR, timeout=1800)
@@ -415,6 +460,55 @@ def repo_src():
     if spec is None or not spec.submodule_search_locations:
         raise InfraError("precondition package not importable")
     return list(spec.submodule_search_locations)[0]
+
+
+GEN_FILE = os.path.join("lean", "PrecondVerif", "Gen", "Src.lean")
+
+
+def gen_stage(ctx):
+    """Second tie between model and code: re-run the Python -> Lean translator (harness/py2lean.py) on the source
+    that is imported NOW and make lean/PrecondVerif/Gen/Src.lean equal to its output (atomic replace, only when the
+    text differs — several checks may do this concurrently and all produce the same text).  The bridge theorems of
+    Props/Gen.lean (built by `lean_stage(extra_props=("Gen",))`) are then re-checked by the kernel against what the
+    code says today.  Records `cov["generated_model"]`; a function the translator cannot handle is a stage failure."""
+    from harness import py2lean
+    t0 = time.time()
+    text, info = py2lean.generate(repo_src())
+    path = os.path.join(ROOT, GEN_FILE)
+    os.makedirs(os.path.dirname(path), exist_ok=True)
+    try:
+        old = open(path).read()
+    except OSError:
+        old = None
+    rewritten = old != text
+    if rewritten:
+        tmp = f"{path}.{os.getpid()}.tmp"
+        with open(tmp, "w") as f:
+            f.write(text)
+        os.replace(tmp, path)
+    try:
+        tracked = subprocess.run(["git", "-C", ROOT, "ls-files", "--error-unmatch", GEN_FILE], capture_output=True, timeout=60).returncode == 0
+        differs = subprocess.run(["git", "-C", ROOT, "diff", "--quiet", "--", GEN_FILE], capture_output=True, timeout=60).returncode != 0
+    except Exception:  # noqa: BLE001
+        tracked, differs = None, None
+    ctx.cov["generated_model"] = {
+        "file": GEN_FILE, "translator": "harness/py2lean.py", "source_dir": repo_src(),
+        "functions": info, "text_sha256": __import__("hashlib").sha256(text.encode()).hexdigest(),
+        "text_changed_vs_committed": (differs if tracked else ("untracked" if tracked is False else None)),
+        "file_rewritten_by_this_run": rewritten, "seconds": round(time.time() - t0, 3),
+    }
+    for r in info:
+        if r["error"]:
+            e = r["error"]
+            ctx.stage_failures.append({"stage": "translate", "name": r["function"],
+                                       "detail": f"Untranslatable({e['function']}, line {e['lineno']}, {e['construct']})"})
+    tb = ctx.cov["trusted_base"]
+    line = ("Python -> Lean translator harness/py2lean.py + Gen/Prelude.lean (documented subset; Python int = Int, // % = Int.fdiv/fmod, "
+            "exceptions and numpy int32 overflow not modelled): Gen/Src.lean is regenerated from the current source on every run and tied "
+            "to the hand-written model by the bridge theorems of Props/Gen.lean")
+    if line not in tb:
+        tb.append(line)
+    return not any(r["error"] for r in info)
 
 
 def acquire_run_slot():
